@@ -88,7 +88,12 @@ Judge(e) ==
     /\ Report(Unschedulable(I, e.lo, e.hi) => R.out = "RuntimeError", e, "C14.diagnosis", 0)
     /\ Report((e.schedulable /\ ~Unschedulable(I, e.lo, e.hi)) => R.out = "ok", e, "C06.returns", 0)
     /\ Report(e.pure.after = e.pure.before, e, "C06.pure", 0)
-    /\ (R.out = "ok" /\ ~Unschedulable(I, e.lo, e.hi)) => JudgeOk(e)     \* the other properties speak of schedulable inputs
+    /\ (R.out = "ok" /\ ~Unschedulable(I, e.lo, e.hi) /\ ~I.tod) => JudgeOk(e)   \* the other properties speak of schedulable inputs
+    \* calendars that change within a day: only purity and repeatability are judged
+    /\ (R.out = "ok" /\ I.tod) =>
+         /\ Report(e.pure.separate, e, "C06.separate", 0)
+         /\ Report(e.pure.structout = e.pure.structin, e, "C06.struct", 0)
+         /\ \A i \in DOMAIN e.rep : Report(SameResult(R, e.rep[i]), e, "C06.repeat", i)
 
 Init == k = 1
 Next == /\ k <= Len(Batch)
